@@ -77,6 +77,13 @@ CHECKS = {
                      "reference expander",
                 note="trusted: reference expander vf/ref/preproc.py implementing the clauses of the statement; ambiguous constructs are outside the alphabet (listed in assumptions)",
                 technique="bounded exhaustive enumeration of source texts from a grammar against a reference expander"),
+    "C14": dict(level="exploration", ref="3/C14",
+                text="all layouts of <=2/3 line-consuming blocks (16 kinds incl. multi-line comments/defines, conditional sections, nested includes; LF "
+                     "and CRLF) followed by a probe of 7 kinds at 3 column offsets, in the main file or inside an included file, run through "
+                     "preprocess -> parse -> execute; structured location (file, line, column) and __LINE__/__FILE__ values compared with the "
+                     "physical position of the probe",
+                note="numbering base calibrated on the empty layout; only drift is judged",
+                technique="bounded exhaustive enumeration of source layouts with an injected fault at every position"),
 }
 
 PENDING_REASON = "check not built yet in this round (planned, see DESIGN.md section 3)"
